@@ -159,3 +159,22 @@ def age(s, rng, steps=None, allow=("size", "axis", "radius", "move", "core", "ri
             if reads and rng.random() < 0.6:
                 _reads(s, rng, frac=0.4)
     return log
+
+
+def age_or_sibling(s, rng, frac=0.3, **kw):
+    """Like ``age`` - but in ``frac`` of the calls the history happens to a *sibling*: a second object built from the same
+    construction data (bit-identical vertices / parameters), which is then read, resized, moved and reoriented while ``s``
+    itself is left alone.  Whatever two objects of a class share behind the scenes (a module-level memo keyed by the
+    vertices, a buffer handed from one instance to the next) shows up as ``s`` no longer describing its own geometry.
+    Returns (log, sibling-or-None); keep the sibling referenced while ``s`` is being judged."""
+    if rng.random() >= frac:
+        return age(s, rng, **kw), None
+    try:
+        with contracts.quiet():
+            sib = fingerprint.fresh(s)
+    except Exception:
+        return age(s, rng, **kw), None
+    kw = dict(kw)
+    kw["reads"] = True
+    log = age(sib, rng, **kw)
+    return ["sibling built from the same data: " + x for x in log], sib
